@@ -2,6 +2,9 @@
 package c05
 
 import (
+	"verif/harness/pol"
+	"verif/harness/sel"
+	"verif/harness/val"
 	"fmt"
 	"os"
 	"testing"
@@ -78,7 +81,42 @@ func run(c *h.Ctx, cs chain.Case) {
 }
 
 func draw(t *rapid.T) chain.Case {
-	return chain.DrawConforming(t, chain.GenOpt{MaxLen: 6, Commands: true, Policies: true, Times: true, Irrelevant: true, Args: true, MixedAlgs: rapid.IntRange(0, 2).Draw(t, "mixed") == 0})
+	cs := chain.DrawConforming(t, chain.GenOpt{MaxLen: 6, Commands: true, Policies: true, Times: true, Irrelevant: true, Args: true, MixedAlgs: rapid.IntRange(0, 2).Draw(t, "mixed") == 0})
+	if rapid.IntRange(0, 5).Draw(t, "wholeargs") == 2 {
+		// a policy that pins the argument set AS A WHOLE: ["==", ".", {...}] with the literal written as a Go map
+		// (literal.Any), as callers write it. Keys of different lengths and scripts, scalar values; the arguments hold
+		// exactly these entries, given in another order. Neither side has an order of the caller's choosing.
+		keys := rapid.SampledFrom([][]string{{"to", "subject"}, {"b", "aa"}, {"subject", "to", "cc"}, {"k", "é", "zz", "a"}, {"amount", "to", "memo", "id"}, {"x"}, {"b", "a"}, {"aa", "b", "ccc", "dddd", "e"}}).Draw(t, "wa_keys")
+		var argsKV, litKV []val.KV
+		for i, k := range keys {
+			var v val.V
+			switch (i + len(keys)) % 4 {
+			case 0:
+				v = val.Str("v-" + k)
+			case 1:
+				v = val.Int(int64(40 + i))
+			case 2:
+				v = val.Bool(i%2 == 0)
+			default:
+				v = val.Bytes([]byte{byte(i), 2, 3})
+			}
+			argsKV = append(argsKV, val.KV{K: k, V: v})
+			litKV = append([]val.KV{{K: k, V: v}}, litKV...) // the literal lists them the other way round
+		}
+		cs.Inv.Args = argsKV
+		cs.Inv.CommonArgs, cs.Inv.TypedArg, cs.Inv.UcanArg = 0, false, 0
+		for i := range cs.Links {
+			cs.Links[i].Pol = nil
+		}
+		lit := val.V{K: "map", M: litKV}
+		li := rapid.IntRange(0, len(cs.Links)-1).Draw(t, "wa_link")
+		cs.Links[li].Pol = pol.Policy{{Op: "==", Sel: sel.Sel{{Kind: "id"}}, Lit: &lit, LitGo: true}}
+		cs.Links[li].PolIPLD = rapid.Bool().Draw(t, "wa_ipld")
+		one := argsKV[0].V
+		cs.Links[(li+1)%len(cs.Links)].Pol = append(cs.Links[(li+1)%len(cs.Links)].Pol, pol.Stmt{Op: "==", Sel: sel.Sel{{Kind: "field", Name: argsKV[0].K}}, Lit: &one, LitGo: true})
+		cs.Dev = append(cs.Dev, "whole-args-literal")
+	}
+	return cs
 }
 
 var prop = h.Define(P, "chain", draw, run)
